@@ -581,18 +581,18 @@ func ruleAuthorProvenance(p *Program, r *Result, evals []*ssa.Function) {
 				continue
 			}
 			if call, ok := iff.Cond.(*ssa.Call); ok && containsFn(evals, call.Common().StaticCallee()) {
-				if b.Succs[0] == rs.Call.Block() || b.Succs[0].Dominates(rs.Call.Block()) {
+				if b.Succs[0] == rs.At.Block() || b.Succs[0].Dominates(rs.At.Block()) {
 					good = true
 					how = "the true edge of " + shortCall(call)
 				}
 			}
 			// (ii) session path: len(args) > 0 with args = result #0 of the session evaluator, status = its result #1
-			if bo, ok := iff.Cond.(*ssa.BinOp); ok && bo.Op == token.GTR {
-				if z, ok := constInt(bo.Y); ok && z == 0 {
-					if lc, ok := bo.X.(*ssa.Call); ok {
-						if bi, ok := lc.Common().Value.(*ssa.Builtin); ok && bi.Name() == "len" {
+			if lc, yes, ok := lenPositiveTest(iff); ok {
+				{
+					{
+						{
 							if ev, idx, ok := extractOf(lc.Common().Args[0]); ok && idx == 0 {
-								if b.Succs[0] == rs.Call.Block() || b.Succs[0].Dominates(rs.Call.Block()) {
+								if y, n := b.Succs[yes], b.Succs[1-yes]; (y == rs.At.Block() || y.Dominates(rs.At.Block())) && n != rs.At.Block() && !n.Dominates(rs.At.Block()) {
 									// the args replied are that same result
 									sameArgs := false
 									for _, a := range rs.Options["SetAuthorReplyArgs"] {
@@ -641,4 +641,40 @@ func sameInnermostLoop(a, x *ssa.BasicBlock) bool {
 		}
 	}
 	return true
+}
+
+// lenPositiveTest: the block ends in a test of len(x) > 0 in one of its spellings (len(x) > 0, len(x) != 0,
+// len(x) >= 1, and the negations len(x) == 0, len(x) <= 0, len(x) < 1, under any number of '!'); returns the len
+// call and the index of the successor taken when the length is positive.
+func lenPositiveTest(iff *ssa.If) (*ssa.Call, int, bool) {
+	cond, yes := iff.Cond, 0
+	for {
+		u, ok := cond.(*ssa.UnOp)
+		if !ok || u.Op != token.NOT {
+			break
+		}
+		cond, yes = u.X, 1-yes
+	}
+	bo, ok := cond.(*ssa.BinOp)
+	if !ok {
+		return nil, 0, false
+	}
+	lc, ok := bo.X.(*ssa.Call)
+	if !ok {
+		return nil, 0, false
+	}
+	if bi, ok := lc.Common().Value.(*ssa.Builtin); !ok || bi.Name() != "len" {
+		return nil, 0, false
+	}
+	z, ok := constInt(bo.Y)
+	if !ok {
+		return nil, 0, false
+	}
+	switch {
+	case (bo.Op == token.GTR || bo.Op == token.NEQ) && z == 0, bo.Op == token.GEQ && z == 1:
+		return lc, yes, true
+	case (bo.Op == token.EQL || bo.Op == token.LEQ) && z == 0, bo.Op == token.LSS && z == 1:
+		return lc, 1 - yes, true
+	}
+	return nil, 0, false
 }
